@@ -126,3 +126,158 @@ c08_treiber!(c08_treiber_push_at102_k1, quick, 3, false, 102, 1);
 c08_treiber!(c08_treiber_pop_at111_k2, thorough, 3, true, 111, 2);
 c08_treiber!(c08_treiber_pop_at112_k3, thorough, 3, true, 112, 3);
 c08_treiber!(c08_treiber_push_at102_k3, thorough, 3, false, 102, 3);
+
+// ---------------------------------------------------------------- LockFreeMemoryPool fast bins
+use std::ptr::NonNull;
+use zipora::memory::lockfree_pool::{BackoffStrategy, LockFreeMemoryPool, LockFreePoolConfig};
+
+const LF_SIZE: usize = 16;
+
+struct Lf {
+    pool: *const LockFreeMemoryPool,
+    point: u32,
+    fired: bool,
+    k: u32,
+    /// blocks currently owned by thread B
+    b_held: [Option<NonNull<u8>>; 4],
+    b_ops: u32,
+}
+static mut LF: Lf = Lf { pool: core::ptr::null(), point: 0, fired: false, k: 0, b_held: [None; 4], b_ops: 0 };
+
+/// One complete operation of B: nothing, allocate (keep the block), or free the oldest block held.
+unsafe fn lf_b_op() {
+    let op: u8 = vany();
+    assume(op < 3);
+    if op == 0 {
+        return;
+    }
+    let pool = &*LF.pool;
+    LF.b_ops += 1;
+    if op == 1 {
+        let r = pool.allocate(LF_SIZE);
+        match r {
+            Ok(p) => {
+                let mut i = 0;
+                while i < 4 {
+                    if LF.b_held[i].is_none() {
+                        LF.b_held[i] = Some(p);
+                        break;
+                    }
+                    i += 1;
+                }
+            }
+            Err(e) => forget(e),
+        }
+    } else {
+        let mut i = 0;
+        while i < 4 {
+            if let Some(p) = LF.b_held[i].take() {
+                let r = pool.deallocate(p, LF_SIZE);
+                forget(r);
+                break;
+            }
+            i += 1;
+        }
+    }
+}
+
+fn lf_hook(id: u32) {
+    unsafe {
+        if id != LF.point || LF.fired {
+            return;
+        }
+        LF.fired = true;
+        if LF.k >= 1 { lf_b_op(); }
+        if LF.k >= 2 { lf_b_op(); }
+        if LF.k >= 3 { lf_b_op(); }
+    }
+}
+
+/// Free list pre-loaded with three 16-byte blocks; A allocates (a_alloc) or frees a block it owns,
+/// B interferes once at `point`; afterwards every block is owned by at most one party and the
+/// free list hands out nothing that is still owned.
+fn lfpool_sched(a_alloc: bool, point: u32, k: u32) {
+    let cfg = LockFreePoolConfig {
+        memory_size: 512,
+        enable_stats: false,
+        max_cas_retries: 3,
+        backoff_strategy: BackoffStrategy::None,
+        enable_cache_alignment: false,
+        cache_config: None,
+        enable_numa_awareness: false,
+        enable_huge_pages: false,
+        huge_page_threshold: 2 * 1024 * 1024,
+        enable_simd_optimization: false,
+        zero_on_free: false,
+    };
+    let pool = match LockFreeMemoryPool::new(cfg) { Ok(p) => p, Err(e) => { forget(e); return; } };
+    let get = |p: &LockFreeMemoryPool| -> NonNull<u8> {
+        match p.allocate(LF_SIZE) { Ok(x) => x, Err(e) => { forget(e); panic!("512-byte arena refused a 16-byte request") } }
+    };
+    let (p1, p2, p3, a_own) = (get(&pool), get(&pool), get(&pool), get(&pool));
+    forget(pool.deallocate(p3, LF_SIZE));
+    forget(pool.deallocate(p2, LF_SIZE));
+    forget(pool.deallocate(p1, LF_SIZE));
+    unsafe {
+        LF = Lf { pool: &pool, point, fired: false, k, b_held: [None; 4], b_ops: 0 };
+    }
+    zipora::verif_hooks::set_sched_hook(lf_hook);
+    let mut a_block: Option<NonNull<u8>> = Some(a_own);
+    let mut a_second: Option<NonNull<u8>> = None;
+    if a_alloc {
+        match pool.allocate(LF_SIZE) { Ok(p) => a_second = Some(p), Err(e) => forget(e) }
+    } else {
+        let r = pool.deallocate(a_own, LF_SIZE);
+        if r.is_ok() { a_block = None; }
+        forget(r);
+    }
+    zipora::verif_hooks::clear_sched_hook();
+    // quiescence: three more requests drain whatever the free list still offers
+    let d = [get(&pool), get(&pool), get(&pool)];
+    // ownership: A's blocks, B's blocks and the drained blocks are pairwise different addresses
+    let mut all: [Option<NonNull<u8>>; 9] = [None; 9];
+    all[0] = a_block;
+    all[1] = a_second;
+    let held = unsafe { LF.b_held };
+    all[2] = held[0];
+    all[3] = held[1];
+    all[4] = held[2];
+    all[5] = held[3];
+    all[6] = Some(d[0]);
+    all[7] = Some(d[1]);
+    all[8] = Some(d[2]);
+    let mut i = 0;
+    while i < 9 {
+        let mut j = i + 1;
+        while j < 9 {
+            if let (Some(x), Some(y)) = (all[i], all[j]) {
+                assert!(x != y, "one block is owned twice (handed out while still owned, or twice from the free list)");
+            }
+            j += 1;
+        }
+        i += 1;
+    }
+    zcover!(unsafe { LF.b_ops } >= 1, "interference ran an operation");
+    zcover!(unsafe { LF.b_ops } == 0, "opt: no interference");
+    forget(pool);
+}
+
+macro_rules! c08_lfpool {
+    ($name:ident, $tier:ident, $unwind:literal, $aalloc:literal, $point:literal, $k:literal) => {
+        zv_harness! {
+            name: $name,
+            prop: "C08",
+            tier: $tier,
+            unwind: $unwind,
+            stubs: [alloc::fmt::format => crate::common::stubs::fmt_format],
+            targets: "memory::lockfree_pool::LockFreeMemoryPool::{allocate, deallocate, allocate_from_fast_bin, deallocate_to_fast_bin, pack_head, unpack_head, allocate_new_block}; schedule points 201,202 (pop) and 211,212 (push)",
+            bounds: "512-byte arena, one size class (16 bytes), free list pre-loaded with 3 blocks, max_cas_retries 3; thread A: one allocate (instance arg true) or one deallocate (false); the first time A reaches ONE schedule point (arg before last) the solver runs 0..K complete allocate/deallocate operations of thread B (K = last arg); B holds at most 4 blocks; sequentially consistent atomics; unwind 66 covers the 64 fast bins built by new()",
+            oracle: "after quiescence and three further allocations, all blocks owned by A, by B and just handed out are pairwise distinct addresses (no block owned twice, no owned block still on the free list); CBMC pointer checks on every free-list link",
+            body: { lfpool_sched($aalloc, $point, $k) }
+        }
+    };
+}
+c08_lfpool!(c08_lfpool_alloc_at202_k3, quick, 66, true, 202, 3);
+c08_lfpool!(c08_lfpool_alloc_at201_k3, quick, 66, true, 201, 3);
+c08_lfpool!(c08_lfpool_free_at212_k2, quick, 66, false, 212, 2);
+c08_lfpool!(c08_lfpool_free_at211_k3, thorough, 66, false, 211, 3);
